@@ -145,7 +145,7 @@ Definition ex_coinA := mkCoin 5 100 0 0 0.
 Definition ex_st := mkSt [((100, 0), ex_coinA); ((7, 0), mkCoin 5 3 0 0 9)] [] [] [] [].
 Definition ex_tx := mkTx 7 false [InCoin (100, 0) 5 100 0] [OutCoin 6 10 0; OutChange 5 0 0] 50 1000 200 0 0 0 0 true.
 Definition ex_vm := mkVmOut false [OutCoin 6 10 0; OutChange 5 90 0] 51 [] 0 (Some (10, 0)).
-Definition ex_att := mkAtt ex_tx false u32max true true true (Some ex_vm) true.
+Definition ex_att := mkAtt ex_tx false u32max true true true (Some ex_vm) 13 true.
 Definition ex_run := mkRun ex_st data_new [] [].
 
 Theorem skipped_changes_nothing_refuted_all :
